@@ -220,6 +220,27 @@ func c17Calibration() []*mc.Scenario {
 
 var ddClients = map[*ddreg.MetricRegistry]*dogstatsd.Client{}
 
+// gmBackends remembers the go-metrics backend of each registry built for an execution: its timers
+// own meters that the library's global arbiter keeps alive until they are unregistered.
+var gmBackends = map[core.MetricRegistry]gometricslib.Registry{}
+
+func newGoMetrics() core.MetricRegistry {
+	back := gometricslib.NewRegistry()
+	r, err := gmreg.NewGoMetricsMetricRegistry(back, "", "p", time.Second)
+	if err != nil {
+		panic(err)
+	}
+	gmBackends[r] = back
+	return r
+}
+
+func dropGoMetrics(r core.MetricRegistry) {
+	if back := gmBackends[r]; back != nil {
+		back.UnregisterAll()
+		delete(gmBackends, r)
+	}
+}
+
 var calibReports = map[string]int{}
 var calibExecs = map[string]int{}
 
@@ -461,13 +482,8 @@ func c17Types() []c17Type {
 			{"Start+Stop", func(i any) { r := i.(core.MetricRegistry); r.Start(); r.Stop() }},
 		}
 	}
-	ts = append(ts, c17Type{name: "gometrics.MetricRegistry", mk: func() any {
-		r, err := gmreg.NewGoMetricsMetricRegistry(gometricslib.NewRegistry(), "", "p", time.Second)
-		if err != nil {
-			panic(err)
-		}
-		return r
-	}, ops: regOps()})
+	ts = append(ts, c17Type{name: "gometrics.MetricRegistry", mk: func() any { return newGoMetrics() }, ops: regOps(),
+		done: func(i any) { dropGoMetrics(i.(core.MetricRegistry)) }})
 	ts = append(ts, c17Type{name: "datadog.MetricRegistry", mk: func() any {
 		client, err := dogstatsd.NewWithWriter(&memWriter{}, dogstatsd.WithoutTelemetry(), dogstatsd.WithoutClientSideAggregation())
 		if err != nil {
@@ -517,17 +533,17 @@ func c17Types() []c17Type {
 			r.RegisterGauge("g0", func() (float64, bool) { return 2, true })
 			r.Start()
 			return r
-		}, done: func(i any) { i.(core.MetricRegistry).Stop() }})
+		}, done: func(i any) {
+			i.(core.MetricRegistry).Stop()
+			dropGoMetrics(i.(core.MetricRegistry))
+		}})
 	}
 	// whole stacks reporting to a started go-metrics registry: the samplers of the limit, the strategy
 	// and the partitions run inside the calls while the poller reads the gauges they registered
 	for _, kind := range []string{"simple", "precise", "lookup", "predicate"} {
 		kind := kind
 		ts = append(ts, c17Type{name: "limiter.DefaultLimiter(" + kind + ")+gometrics(polling)", eager: true, pb: 1, mk: func() any {
-			r, err := gmreg.NewGoMetricsMetricRegistry(gometricslib.NewRegistry(), "", "p", time.Second)
-			if err != nil {
-				panic(err)
-			}
+			r := newGoMetrics()
 			lim := limit.NewVegasLimitWithRegistry("t", 3, nil, 10, 1.0, nil, nil, nil, nil, nil, 30, nil, r)
 			l, err := limiter.NewDefaultLimiter(lim, 1, 1, 0, 10, newStrategy(kind, 3, r), limit.NoopLimitLogger{}, r)
 			if err != nil {
@@ -540,7 +556,7 @@ func c17Types() []c17Type {
 			}
 			r.Start()
 			return &c17Stack{l, r}
-		}, done: func(i any) { i.(*c17Stack).reg.Stop() }, ops: []c17Op{
+		}, done: func(i any) { i.(*c17Stack).reg.Stop(); dropGoMetrics(i.(*c17Stack).reg) }, ops: []c17Op{
 			{"Acquire(a)+OnSuccess", func(i any) {
 				if l, ok := i.(*c17Stack).l.Acquire(ctxFor("a")); ok {
 					l.OnSuccess()
@@ -681,6 +697,9 @@ func runC17(c *Ctx) {
 		b := pb
 		if ty.pb != 0 {
 			b = ty.pb + c.Pick(0, 1)
+			if strings.Contains(ty.name, "+gometrics") {
+				b = ty.pb // whole stacks with a ticking poller: one preemption or tick (250 k executions each at two)
+			}
 		}
 		c.Explore(c17Scenario(ty, b), mc.Options{PreemptBound: b, NoCache: true})
 	}
